@@ -93,6 +93,8 @@ def scan(prog):
                     cands.append(("shift", x))
                 elif k == "call" and callee_name(x) in NONZERO_ARG and x[3]:
                     cands.append(("pre", x))
+                elif k == "call" and callee_name(x) is None and show(x[1]).endswith("fn_sha256_compression") and len(x[3]) == 3:
+                    cands.append(("blocks", x))
             if not cands:
                 continue
             if g is None:
@@ -117,6 +119,20 @@ def scan(prog):
                         add(idb, x[2], "pre", text, None, "argument %s not bounded by intervals" % fmt(iv))
                     else:
                         add(idb, x[2], "pre", text, iv[0] >= 1, "argument in %s" % fmt(iv))
+                    continue
+                if kd == "blocks":
+                    # the replaceable compression callback is documented to process one or more blocks
+                    env2 = env
+                    for b2 in f.blocks.values():
+                        for el2 in b2.elems:
+                            if el2.e == x:
+                                e2 = g.env_at(el2)
+                                if e2 is not None:
+                                    env2 = e2
+                    iv = g.ev(x[3][2], env2)
+                    add("R-CAP:%s:blocks:fn_sha256_compression" % f.name, x[2], "pre",
+                        "the SHA-256 compression callback is invoked with n_blocks = %s >= 1 (its contract: one or more contiguous blocks)" % show(x[3][2]),
+                        (iv[0] >= 1) if iv[0] != -INF else None, "n_blocks in %s" % fmt(iv))
                     continue
                 if kd == "cmp":
                     # a comparison against a whole array compares all of it (a length of sizeof(pointer) compares a prefix)
